@@ -204,7 +204,7 @@ func balancedList(shape int) []string {
 		". as $s | {} | .a.b.c = 1 | $s", ". as $s | [1, [2]] | getpath([1, 0]) | $s", "([.] | tojson) as $j | $j | fromjson | .[0]"}
 	switch shape {
 	case 0:
-		xs = append(xs, ". + 0", ". * 1", "tostring | tonumber", "floor", ". |= .", ". += 0", "[., 0] | max", "-(-(.))")
+		xs = append(xs, ". + 0", ". * 1", "\"\\(.)\" | tonumber", "{a: .} | .[]", "[.] | .[]", "tostring | tonumber", "floor", ". |= .", ". += 0", "[., 0] | max", "-(-(.))")
 	case 1:
 		xs = append(xs, "map(.)", ".[1] |= . + 0", ".[0] += 0", "[.[]]", "to_entries | map(.value)", "[.[0], .[1]]", ". as [$a, $b] | [$a, $b]", "del(.[5])", ".[2:] as $r | .",
 			"[limit(2; .[])]", "reverse | reverse", "flatten", "(.[0], .[1]) |= .", ".[:2]", ". + []", "[.[] | .]", "[.[0]] + [.[1]]", "path(.[0]) as $p | .", "[.[] | select(true)]")
